@@ -21,7 +21,7 @@ _why = {
     204: "farm.pool_creation_fee.invalid-denom", 205: "farm.tax_rate.negative-tax", 206: "farm.tax_rate.tax-exceeds-fee",
     301: "htlc.asset.invalid-denom", 311: "htlc.min_swap_amount.nil", 312: "htlc.max_swap_amount.nil", 313: "htlc.supply_limit.nil",
     314: "htlc.supply_limit.negative", 315: "htlc.time_based_limit.nil", 316: "htlc.time_based_limit.negative", 317: "htlc.fixed_fee.nil", 318: "htlc.fixed_fee.int-overflow",
-    401: "service.min_deposit_multiple.negative", 411: "service.service_fee_tax.nil", 412: "service.service_fee_tax.dec-overflow",
+    401: "service.min_deposit_multiple.negative", 402: "service.min_deposit_multiple.int-overflow", 411: "service.service_fee_tax.nil", 412: "service.service_fee_tax.dec-overflow",
     413: "service.service_fee_tax.negative-tax", 421: "service.slash_fraction.nil", 422: "service.slash_fraction.dec-overflow",
     423: "service.slash_fraction.negative-slash", 424: "service.base_denom.invalid",
     501: "token.issue_token_base_fee.nil-amount", 502: "token.issue.zero-fee-factor", 503: "token.issue_token_base_fee.dec-overflow",
@@ -58,6 +58,7 @@ PROPS["C16"] = dict(
     codes=_codes,
     explain=_explain,
     trusted_base=["the denom / address / beacon classes of the model's vocabulary stand for the fixed strings listed in harness/cmd/params/main.go",
-                  "256-bit overflow of sdkmath.Int arithmetic on operation inputs is outside the model (inputs are kept below 2^100)"],
-    assumptions=["operation inputs (amounts, reserves, balances) are below 2^100; parameter values range over the whole encodable domain"],
+                  "256-bit overflow of sdkmath.Int arithmetic on operation inputs is outside the model except where a parameter is a factor "
+                  "(service price * multiple, htlc fixed fee + minimum): inputs are otherwise kept below 2^100"],
+    assumptions=["operation inputs (amounts, reserves, balances) are below 2^100 (service bind price: up to 2^200); parameter values range over the whole encodable domain"],
 )
